@@ -13,6 +13,25 @@ REPO = os.environ.get("VERIF_REPO", "/repo")
 sys.dont_write_bytecode = True
 
 
+def show_agg(obj, M):
+    """KIND,lo,hi,<base>; a nested level in [ ]; `@` before the base name of the level that was given a scope; `!` when
+    that name cannot be resolved in its scope"""
+    hi = obj.bound_2()
+    head = "%s,%s,%s," % (type(obj).__name__, obj.bound_1(), "?" if hi is None else hi)
+    inner = obj._typedef
+    if isinstance(inner, str):
+        mark = "@" if obj._scope is not None else ""
+        try:
+            obj.get_type()
+        except Exception as e:
+            mark += "!"
+        return head + mark + inner
+    from stepcode import AggregationDataTypes as A
+    if isinstance(inner, (A.ARRAY, A.LIST, A.BAG, A.SET)):
+        return head + ("@" if obj._scope is not None else "") + "[" + show_agg(inner, M) + "]"
+    return head + "?%r" % (inner,)
+
+
 def main():
     d, mod = sys.argv[1], sys.argv[2]
     path = os.path.join(d, mod + ".py")
@@ -68,8 +87,7 @@ def main():
         elif isinstance(obj, SELECT):
             types.append((name, "select:" + (",".join(sorted(str(t._typedef) for t in obj._base_types)) or "-")))
         elif isinstance(obj, (A.ARRAY, A.LIST, A.BAG, A.SET)):
-            hi = obj.bound_2()
-            types.append((name, "aggregate:%s,%s,%s,%s" % (type(obj).__name__, obj.bound_1(), "?" if hi is None else hi, obj._typedef)))
+            types.append((name, "aggregate:" + show_agg(obj, M)))
     # constructor wiring: every parameter must reach the attribute it stands for, through the superclass __init__ calls
     wiring = "ok"
     for name, obj in vars(M).items():
@@ -90,6 +108,21 @@ def main():
                 got = e
             if got is not v:
                 wiring = "bad:%s.%s" % (name, an); break
+        if wiring != "ok":
+            break
+        # every explicit attribute's setter evaluates its type expression: a plain object must be refused with
+        # TypeError (the type check), nothing else (an unresolvable name, a malformed aggregate expression, …)
+        for p_ in ps:
+            an = re.sub(r"^inherited\d+__", "", p_)
+            try:
+                setattr(inst, an, object())
+                wiring = "bad:%s.%s:setter-accepts-any-object" % (name, an)
+            except TypeError:
+                pass
+            except Exception as e:
+                wiring = "bad:%s.%s:setter-raises-%s" % (name, an, type(e).__name__)
+            if wiring != "ok":
+                break
         if wiring != "ok":
             break
     items = ["ok", "pkg=" + pkg, "wiring=" + wiring] + ["class %s %s" % c for c in sorted(classes)] + ["type %s=%s" % t for t in sorted(types)]
